@@ -89,10 +89,10 @@ REG["C19"] = dict(
 )
 
 REG["C10"] = dict(
-    harnesses=[H(P, "VerifH_C10_optionalSort"), H(P, "VerifH_C10_nullOrderingLaws"), H(P, "VerifH_C10_repeatedSort"), H(P, "VerifH_C10_comparatorColumns")],
-    explanation="(K1) optionalColumnBuffer over a real int64 column buffer: rows with symbolic keys and every null mask are written in two batches, sorted with the standard library's sort.Sort (executed from SSA) and materialised with Page(); the page holds every written value exactly once with its level (values carry distinct tags), nulls are where the null ordering says and non-null values are ascending/descending as configured. (K2) nullsGoFirst/nullsGoLast are strict weak orders (irreflexive, asymmetric, transitive, transitive incomparability) for symbolic values and all definition-level triples. (K3) repeatedColumnBuffer.Less equals the lexicographic order over all values of the two rows, and sorting keeps every row intact and in that order. (K4) Schema.Comparator on a schema with a repeated column before the sorting columns: for rows whose repeated column holds 0..2 values, the comparison is decided by the sorting columns only (first key ascending/descending, second optional key with nulls first/last as tie-break).",
+    harnesses=[H(P, "VerifH_C10_optionalSort"), H(P, "VerifH_C10_nullOrderingLaws"), H(P, "VerifH_C10_repeatedSort"), H(P, "VerifH_C10_comparatorColumns"), H(P, "VerifH_C10_bufferMultiColumnSort")],
+    explanation="(K1) optionalColumnBuffer over a real int64 column buffer: rows with symbolic keys and every null mask are written in two batches, sorted with the standard library's sort.Sort (executed from SSA) and materialised with Page(); the page holds every written value exactly once with its level (values carry distinct tags), nulls are where the null ordering says and non-null values are ascending/descending as configured. (K2) nullsGoFirst/nullsGoLast are strict weak orders (irreflexive, asymmetric, transitive, transitive incomparability) for symbolic values and all definition-level triples. (K3) repeatedColumnBuffer.Less equals the lexicographic order over all values of the two rows, and sorting keeps every row intact and in that order. (K4) Schema.Comparator on a schema with a repeated column before the sorting columns: for rows whose repeated column holds 0..2 values, the comparison is decided by the sorting columns only (first key ascending/descending, second optional key with nulls first/last as tie-break). (K4b) a real Buffer (NewBuffer with two sorting columns: an optional leaf nested in an optional group with nulls first/last, then a required key) filled through WriteRows and sorted with sort.Sort: every adjacent pair read back is in Schema.Comparator order for the same columns (nulls of any depth tie and the second key decides) and the rows are a permutation of the input.",
     bounds={"quick": "K1: n<=3 rows, 2 batches, both null orderings, ascending/descending; K2: 3 values x 27 level triples; K3: 2 rows of 1..2 values", "thorough": "K1: n<=4; K3: 3 rows"},
-    outside=["column_buffer_amd64.s fill kernel", "SortingWriter (temp file + merge + WriteRowGroup glue)", "RowBuffer", "Buffer.Less/Swap over several sorting columns", "repeated rows containing nulls"],
+    outside=["column_buffer_amd64.s fill kernel", "SortingWriter (temp file + merge + WriteRowGroup glue)", "RowBuffer", "repeated rows containing nulls"],
 )
 
 REG["C09"] = dict(
